@@ -27,3 +27,7 @@ def run(chk, program, tier):
     from .c16 import _Sub
     K.fault_path(_Sub(chk, {'FAULT-PATH'}), program)
     K.send_types(chk, program)
+    # what send() writes for a message depends on that message alone: the encoder keeps no state between messages besides the sequence counter (C02's clause)
+    chk.rule('ENC-STATE', 'encoder keeps no state between messages besides the fast-packet sequence counter (C02)')
+    from .. import rules_enc as _RE
+    _RE.enc_state(_Sub(chk, {'ENC-STATE'}), program)
